@@ -302,13 +302,18 @@ func (s *SimStream) Read(p []byte) (int, error) {
 	defer func() { <-s.rsem }()
 	if len(s.pending) == 0 {
 		select {
-		case seg, ok := <-s.rd:
-			if !ok {
-				return 0, io.EOF
-			}
+		case seg := <-s.rd:
 			s.pending = seg
 		case <-s.closed:
 			return 0, net.ErrClosed
+		case <-s.peer.closed:
+			// the peer has closed: EOF once everything it had written has been read
+			select {
+			case seg := <-s.rd:
+				s.pending = seg
+			default:
+				return 0, io.EOF
+			}
 		}
 	}
 	n := copy(p, s.pending)
@@ -334,6 +339,8 @@ func (s *SimStream) Write(p []byte) (int, error) {
 		return len(p), nil
 	case <-s.peer.closed:
 		return 0, io.ErrClosedPipe
+	case <-s.closed:
+		return 0, net.ErrClosed
 	}
 }
 // WrittenCopy returns a copy of everything written on this end so far.
@@ -347,12 +354,7 @@ func (s *SimStream) Close() error {
 	already := true
 	s.once.Do(func() {
 		already = false
-		close(s.closed)
-		// the peer sees EOF after draining
-		func() {
-			defer func() { _ = recover() }()
-			close(s.peer.rd)
-		}()
+		close(s.closed) // the peer sees EOF after draining (Read); rd itself is never closed, so that Close may race with Write as on a real connection
 	})
 	if already {
 		return net.ErrClosed
